@@ -368,11 +368,16 @@ class ExprMixin(ExecBase):
                 yield vals, s
                 continue
             n = len(node.keys)
+            vs = [self._lit(v) for v in vals[n:]]
+            if len({repr(v.ty) for v in vs if v.ty.kind not in ("none",)}) > 1:
+                # heterogeneous literal (a JSON-like record): its content is not inspected further
+                yield apply_uf(f"dictlit_L{node.lineno}", T.OPAQUE, [v for v in vs if v.parts]), s
+                continue
             out = V.EMPTY_DICT
-            for k, v in zip(vals[:n], vals[n:]):
+            for k, v in zip(vals[:n], vs):
                 if O.is_strlit(k):
                     k = O.coerce(k, T.NAME)
-                out = V.dict_set(out, k, self._lit(v))
+                out = V.dict_set(out, k, v)
             yield out, s
 
     def ev_JoinedStr(self, node, st):
